@@ -25,6 +25,8 @@ type Control struct {
 	File   string // repo-relative
 	Old    string // exact text, must occur exactly once (otherwise the control is skipped)
 	New    string
+	Old2   string // optional second replacement in the same file (e.g. an import the first one needs)
+	New2   string
 	Rule   string // rule expected to fire
 	Substr string // substring expected in the construct of a violated/undecided obligation of that rule
 	Why    string
